@@ -219,7 +219,7 @@ def queries(tier):
     quick = tier == "quick"
     qs = []
     if quick:
-        plan = [(None, "every2"), (0, "always"), (1, "every2"), (2, "always"), (3, "always"), (4, "every2"), (5, "every2"), (8, "always")]
+        plan = [(None, "every2"), (0, "always"), (1, "every2"), (2, "always"), (3, "always"), (5, "every2"), (8, "always")]
     else:
         plan = [(L, pn) for L in [None] + list(range(10)) for pn in ("always", "every2", "every3")]
     for L, pn in plan:
@@ -242,13 +242,13 @@ def queries(tier):
                 qs.append(Query(f"bmc_len{L}_stall{s}", ff, nw + 8, layer={"ready": (lambda t, s=s: int(t != s))},
                                 split=False, covers=["done"], timeout=300,
                                 desc=f"len{L}: ready low only in cycle {s} (concrete layer)"))
-    for L, pn in ((3, "always"), (4, "every2")):
+    for L, pn in (((3, "always"),) if quick else ((3, "always"), (4, "every2"))):
         ff = (lambda L=L: TxFramingHarness(length=L, delayed=True))
         nw = ff().nwords
         qs.append(Query(f"bmc_delayed_len{L}_{pn}", ff, nw * 2 + 6, layer={"ready": _pat(pn)}, split=False,
                         covers=["done", "rt_header"], timeout=300,
                         desc=f"DL set: DPPSTART then EDB EDB EDB EPF abort; ready '{pn}'"))
-    for ty in (0, 12):
+    for ty in ((0,) if quick else (0, 12)):
         ff = (lambda ty=ty: TxFramingHarness(length=None, hp_type=ty))
         qs.append(Query(f"bmc_hp_type{ty}", ff, 14, layer={"ready": _pat("every2")}, split=False, covers=["done"],
                         desc=f"header-only packet of type {ty}"))
